@@ -125,6 +125,7 @@ def enclosing_theorem(vfile, line):
 def make(target, timeout=1500):
     """Full .vo build of target's dependency cone (never -vos/-vok)."""
     ensure_makefile()
+    os.makedirs(os.path.join(VERIF, "ocaml", "gen"), exist_ok=True)     # Extract*.v write there
     rc, out = sh("timeout %d make -f Makefile.coq -j%d %s" % (timeout, NPROC, target), cwd=COQ, timeout=timeout + 30)
     if rc != 0:
         m = re.search(r'File "\./([^"]+)", line (\d+)', out)
@@ -179,6 +180,7 @@ def build_driver(engine=""):
     sub-models (own Extract file, own driver) apart so that they never conflict."""
     suf = ("_" + engine) if engine else ""
     ext = "Extract%s.vo" % (engine.capitalize() if engine else "")
+    os.makedirs(os.path.join(VERIF, "ocaml", "gen"), exist_ok=True)     # not tracked: absent in a fresh checkout
     rc, out = sh("timeout 600 make -f Makefile.coq %s" % ext, cwd=COQ, timeout=630)
     if rc != 0:
         raise BuildBroken("extraction", "%s failed" % ext, out[-3000:])
